@@ -7,7 +7,7 @@ From Coq Require Import Lia String.
 From YV Require Import PyBase PyBaseProofs ShellMap Token Utils Scanner Rpal PState
                        Parser Expand Math Exec TokOk ScanOk ScanFaithful ScanPlain RpalProofs
                        ExecPlain ExpandSites SpecialsProofs ExecUnk ExecArgs ClassDecide
-                       MlProofs RpalRange ExecRange Replace Ml Tex2txt Tex2txtProofs.
+                       MlProofs RpalRange ExecRange Replace Ml Tex2txt Tex2txtProofs TotalProofs ReplaceProofs.
 Open Scope Z_scope.
 
 Section ClassRange.
@@ -198,4 +198,99 @@ Proof.
     cbn [rbind] in H.
     match type of H with (do ml <- ?g; _) = _ => destruct g as [ml2| | |]; try discriminate end.
     cbn [rbind] in H. apply Hfin in H. exact H.
+Qed.
+
+(* ---- the same in multi-language mode ---- *)
+Definition lenok (tp : str * list Z) : Prop := length (fst tp) = length (snd tp).
+
+Lemma repl_parts_total (f : str -> list Z -> result (str * list Z)) :
+  (forall t p, length t = length p -> exists t' p', f t p = Ok (t', p')) ->
+  forall ps, Forall lenok ps ->
+  exists res,
+  (fix gp (ps : list (str * list Z)) : result (list (str * list Z)) :=
+     match ps with
+     | [] => Ok []
+     | (t, p) :: ps' => do tp <- f t p; do r <- gp ps'; Ok (tp :: r)
+     end) ps = Ok res.
+Proof.
+  intros Hf. induction ps as [|[t p] ps IH]; intros Hps; [eexists; reflexivity|].
+  inversion Hps as [|? ? H1 H2]; subst. destruct (Hf t p H1) as (t' & p' & E).
+  destruct (IH H2) as (r & Er). rewrite E. cbn [rbind]. rewrite Er. cbn [rbind].
+  eexists. reflexivity.
+Qed.
+
+Lemma repl_ml_total (f : str -> list Z -> result (str * list Z)) (lang : str) :
+  (forall t p, length t = length p -> exists t' p', f t p = Ok (t', p')) ->
+  forall ml, Forall (fun e : str * list (str * list Z) => Forall lenok (snd e)) ml ->
+  exists res,
+  (fix go (l : list (str * list (str * list Z))) : result (list (str * list (str * list Z))) :=
+     match l with
+     | [] => Ok []
+     | (lg, parts) :: l' =>
+         do parts' <-
+           (if str_eqb lg lang then
+              (fix gp (ps : list (str * list Z)) : result (list (str * list Z)) :=
+                 match ps with
+                 | [] => Ok []
+                 | (t, p) :: ps' => do tp <- f t p; do r <- gp ps'; Ok (tp :: r)
+                 end) parts
+            else Ok parts);
+         do r <- go l';
+         Ok ((lg, parts') :: r)
+     end) ml = Ok res.
+Proof.
+  intros Hf. induction ml as [|[lg parts] ml IH]; intros Hml; [eexists; reflexivity|].
+  inversion Hml as [|? ? H1 H2]; subst. cbn [snd] in H1.
+  destruct (IH H2) as (r & Er).
+  destruct (str_eqb lg lang).
+  - destruct (repl_parts_total f Hf parts H1) as (ps' & Ep). rewrite Ep. cbn [rbind].
+    rewrite Er. cbn [rbind]. eexists. reflexivity.
+  - cbn [rbind]. rewrite Er. cbn [rbind]. eexists. reflexivity.
+Qed.
+
+Theorem tex2txt_class_total_ml T is_word files lang simple mods latex repl unkn thresh fuel st :
+  plain_tables_ok T = true ->
+  (forall c, sp_is_space (t_scan T) c = t_is_space T c) ->
+  sp_is_space (t_scan T) 32 = true /\ okc T 32 = true ->
+  init_parser T (fun f => assoc f files) fuel (init_state T lang true simple true)
+              (t_builtin T) mods = Ok st ->
+  TotalProofs.rot_ok (check_parser_lang T) (rot_change st) ->
+  doc_in_class T (upd_unknowns (upd_extracted st []) []) latex = true ->
+  (mu (macros st) (fst (scan (t_scan T) latex)) < fuel)%nat ->
+  exists out,
+    run_tex2txt T is_word files lang true simple mods [] latex [] repl unkn thresh fuel = Ok out.
+Proof.
+  intros Htab Hsp Hblank Hi Hrot Hd Hf. unfold run_tex2txt. rewrite Hi. cbn [rbind].
+  set (rd := fun f => assoc f files) in *.
+  set (st1 := upd_unknowns (upd_extracted st []) []) in *.
+  destruct (parser_work_class_total_fuel T rd Htab Hsp Hblank fuel st1 latex Hd Hf) as [[st2 body] Ep].
+  destruct (parser_work_class_frame T rd Htab fuel st1 latex _ Hd Ep) as [Fr _].
+  cbn [fst] in Fr. unfold frame in Fr.
+  assert (Ex : extracted st2 = []) by (rewrite Fr; reflexivity).
+  assert (Erot : rot_change st2 = rot_change st) by (rewrite Fr; reflexivity).
+  unfold parse. cbn [rbind]. fold st1. rewrite Ep. cbn [rbind]. rewrite Ex. cbn [rbind app negb].
+  cbv zeta.
+  set (repl_f := fun (t : str) (p : list Z) =>
+                   match repl with
+                   | Some lines => replace_phrases (t_is_space T) (t_is_alpha T) is_word t p lines
+                   | None => Ok (t, p)
+                   end).
+  assert (Hrf : forall t p, length t = length p -> exists t' p', repl_f t p = Ok (t', p')).
+  { intros t p L. unfold repl_f. destruct repl as [lines|]; [|eexists; eexists; reflexivity].
+    destruct (ReplaceProofs.replace_phrases_total (t_is_space T) (t_is_alpha T) is_word lines t p L)
+      as (t' & p' & E & _). exists t', p'. exact E. }
+  rewrite Erot.
+  destruct (TotalProofs.get_txt_pos_ml_total (t_is_space T) (check_parser_lang T) thresh
+              (body ++ []) lang (rot_change st) Hrot) as (ml & Eml).
+  rewrite Eml. cbn [rbind].
+  assert (Hml : Forall (fun e : str * list (str * list Z) => Forall lenok (snd e)) ml).
+  { pose proof (MlProofs.get_txt_pos_ml_lengths (t_is_space T) (check_parser_lang T) thresh
+                  (fun _ => True) (body ++ []) lang (rot_change st) ml) as H0.
+    assert (HT : Forall (MlProofs.tok_R (fun _ => True)) (body ++ [])).
+    { apply Forall_forall. intros t _. unfold MlProofs.tok_R. apply Forall_forall. intros; exact I. }
+    specialize (H0 HT Eml). eapply Forall_impl; [|exact H0]. cbv beta. intros e He.
+    eapply Forall_impl; [|exact He]. cbv beta. intros tp [L _]. exact L. }
+  match goal with |- exists out, (do ml0 <- ?g; _) = _ => assert (Hg : exists r, g = Ok r) end.
+  { exact (repl_ml_total repl_f lang Hrf ml Hml). }
+  destruct Hg as (ml2 & E2). rewrite E2. cbn [rbind]. eexists. reflexivity.
 Qed.
